@@ -7,11 +7,12 @@ import Driver.Index
 import Driver.Construct
 import Driver.Hist
 import Driver.Scalar
+import Driver.Fmt
 
 open Driver
 
 def dispatch (w : World) (ws : List String) : World × String :=
-  match (cmdIndex ws <|> cmdConstruct ws <|> cmdScalar ws) with
+  match (cmdIndex ws <|> cmdConstruct ws <|> cmdScalar ws <|> cmdFmt ws) with
   | some s => (w, s)
   | none =>
     match stepHist w ws with
